@@ -1,5 +1,5 @@
 """C14 — submitted configurations are frozen together with their identity."""
-FUNCS = ["ConfigInformation.identifiers", "ConfigInformation.set", "ConfigInformation.set_meta", "TypeConfig.add_pretasks",
+FUNCS = ["TypeConfig.add_pretasks_from", "ConfigInformation.identifiers", "ConfigInformation.set", "ConfigInformation.set_meta", "TypeConfig.add_pretasks",
          "ConfigInformation.seal.Sealer.preprocess", "ConfigInformation.seal.Sealer.postprocess", "HashComputer.compute"]
 LEVEL = "proof"
 LEVEL_TEXT = 'Deductive: ConfigInformation.set on a sealed configuration (without bypass) raises and leaves the values unchanged; set_meta and add_pretasks raise when sealed; Sealer.postprocess marks the node sealed and Sealer.preprocess stops at sealed nodes; HashComputer.compute never writes the cache. Bounded: every reachable node of enumerated sealed/submitted graphs rejects assignments (different, equal, equal-but-distinct objects), meta changes and pre-tasks; identifiers unchanged.'
